@@ -129,6 +129,12 @@ func formatArrayTypeName(v string) string {
 
 //ExtractValue info
 func ExtractValue(v reflect.Value, extractor ValueExtractor) {
+	// a nil pointer still tells its type: walk a zero value of it,
+	// as is done for the element type of an empty slice or map
+	for v.Kind() == reflect.Ptr && v.IsNil() {
+		v = reflect.New(v.Type().Elem())
+		v = RawValue(v)
+	}
 	v = RawValue(v)
 
 	if !extractor(v) {
